@@ -1082,8 +1082,9 @@ class Simulation:
     def save_results(self, results=None):
         """Save the :attr:`results` to an output file.
 
-        Performs a "safe" overwrite of :attr:`output_filename` by first moving the old file
-        to :attr:`_backup_filename`, then writing the new file, and finally removing the backup.
+        Performs a "safe" overwrite of :attr:`output_filename` by first writing the new file
+        to :attr:`_backup_filename` and then atomically moving it over :attr:`output_filename`,
+        such that a complete file is on disk at any time (once the first save completed).
 
         Parameters
         ----------
@@ -1101,21 +1102,16 @@ class Simulation:
             return results  # don't save to disk
         start_time = time.time()
 
-        if output_filename.exists():
-            # keep a single backup, previous backups are overwritten.
-            if backup_filename is not None:
-                if backup_filename.exists():
-                    backup_filename.unlink()  # remove if exists
-                output_filename.rename(backup_filename)
-            else:
+        if backup_filename is not None:
+            # write to the backup filename first and move the complete file over `output_filename` afterwards:
+            # a crash at any point leaves the previous (complete) `output_filename` untouched.
+            self._save_to_file(results, backup_filename)
+            os.replace(backup_filename, output_filename)
+        else:
+            if output_filename.exists():
                 output_filename.unlink()  # remove
-
-        # actually save the results to disk
-        self._save_to_file(results, output_filename)
-
-        if backup_filename is not None and backup_filename.exists():
-            # successfully saved, so we can safely remove the old backup
-            backup_filename.unlink()
+            # actually save the results to disk
+            self._save_to_file(results, output_filename)
 
         self._last_save = time.time()
         self.logger.info('saving results to disk; took %.1fs', self._last_save - start_time)
